@@ -97,6 +97,9 @@ def check_names(case, ctx):
         ctx.label("dir-fields")
     if "millisecond" in names:
         ctx.label("ms")
+    if style == "partial" and G.RES_ORDER.index(res) > max(
+            G.RES_ORDER.index(f) for f in G.end_fields_of(tpl)):
+        ctx.label("end-coarser-than-start")
     cov = tpl["coverage_s"]
 
     for per in case["periods"]:
@@ -330,7 +333,7 @@ def wide_instant(draw, tpl, res):
 
 @st.composite
 def name_cases(draw):
-    tpl = draw(G.templates(allow_wild=False))
+    tpl = draw(G.templates(allow_wild=False, coarse_end=True))
     res = G.resolution_of(tpl)
     style = G.end_style(tpl)
     unit = G.RES_DELTA[res]
